@@ -13,24 +13,10 @@ from ..poly import Poly, Rat, S
 from ..source import norm, const_value, walk_no_nested, SourceTree, AnalysisError, FuncInfo
 from .common import is_name, params, returns_of, calls_in, root_name
 
-EXPLANATION = (
-    "Static rules on plot/utils.py::hist2d and plot/histogram2d.py: (R1) parallel-loop write classification: no "
-    "read-modify-write on a shared array element inside a numba prange body (a positive fixture is re-checked on every run); "
-    "(R2-R4) the kernel's per-point logic is folded over a finite set of sample points that covers every ordering of a "
-    "coordinate against the bin edges (below the range by less than one bin, on the lower edge, inside, in the last bin, "
-    "above) on an asymmetric grid: exactly one counts/values update at (floor((y-ymin)/dy), floor((x-xmin)/dx)) for in-range "
-    "points, none otherwise, values and counts under the same guard, arrays shaped (layers, ny, nx); (R5) explicit limits "
-    "given as a Quantity are converted to the unit of the axis (pint Unit has no .units), the automatic range strictly "
-    "contains the data extremes (polynomial evaluation of the padding code), log axes transform data and explicit limits "
-    "alike; (R6) dependence analysis: every x-axis argument of the kernel depends only on x inputs and every y-axis "
-    "argument only on y inputs; (R7) the default layer counts points, 'mean' divides the summed layer by the counts, the "
-    "mask is counts == 0.")
-NOT_DECIDED = ("float rounding at bin edges; NaN/inf conversion semantics inside numba (numba casts NaN to an out-of-range "
-               "integer on the supported platforms); exact floating-point sums")
-TRUSTED = ("CPython ast", "numba prange semantics (reductions only on scalars and whole arrays)", "numpy/numba floor and int "
-           "conversion semantics for finite values", "pint: Unit has no .units attribute")
-TECHNIQUE = ("static analysis: parallel-loop write classification, finite-case folding of the kernel's index logic, "
-             "dependence analysis (axis separation), polynomial evaluation of the range padding")
+EXPLANATION = "(R1) every write inside a prange body of plot/utils.py classified: no shared read-modify-write (private histograms reduced after the loop), batch mode followed over several thread counts; (R2) kernel index logic over all orderings of a coordinate against the bin edges; (R5) histogram2d/_parse_limit/finmin/finmax interpreted over token Arrays with symbolic numpy values: explicit limits converted to the axis unit and log10'd on log axes, a missing limit is the FINITE min/max and the automatic range strictly contains the data; (R6) axis separation, default layer = ones, one kernel slot per layer, mean = slot/counts, mask = (counts == 0)."
+NOT_DECIDED = 'floating-point edge effects at bin boundaries; numba scheduling (covered by the write classification, not by execution)'
+TRUSTED = ('CPython ast', 'numba prange semantics', 'the interpreter sa/models.py and sa/symnp.py')
+TECHNIQUE = 'static analysis: parallel-loop write classification, finite ordering tables, abstract interpretation of histogram2d over symbolic numpy values'
 
 KERNEL = "plot/utils.py::hist2d"
 H2D = "plot/histogram2d.py::histogram2d"
